@@ -72,6 +72,15 @@ Shapes(k, st) ==
     [shape |-> "dangling", u |-> U(<<Slot(A1, k, "X", Conc("X", <<>>))>>, R(Root, A1, k, "Missing", st), k)],
     [shape |-> "danglingfile", u |-> U(<<Slot(A1, k, "X", Conc("X", <<>>))>>, R(Root, C1, k, "X", st), k)],
     [shape |-> "wrongkind", u |-> U(<<Slot(A1, OtherKind(k), "X", Conc("X", <<>>))>>, R(Root, A1, OtherKind(k), "X", st), k)],
+    \* two different documents with the same path on two origins (the root's own origin and a second served host)
+    [shape |-> "samepath_twohosts",
+     u |-> U(<<Slot(A1, k, "X", Conc("X", <<>>)), Slot(<<"https://m.example<T>">> \o A1, k, "X", Conc("X2", <<>>)),
+               Slot(<<"https://m.example">> \o A1, k, "X", Conc("X3", <<>>)),
+               Slot(Root, k, "V", RefC([path |-> <<"https://m.example<T>">> \o A1, frag |-> <<k, "X">>])),
+               Slot(Root, k, "W", RefC([path |-> <<"https://m.example">> \o A1, frag |-> <<k, "X">>]))>>, R(Root, A1, k, "X", st), k)],
+    \* the target is a whole typed collection (a map of objects of the expected kind), not an object of that kind
+    [shape |-> "collection", u |-> U(<<Slot(A1, k, "X", Conc("X", <<>>))>>, [path |-> Spell(Root, A1, st), frag |-> <<"#coll", k>>], k)],
+    [shape |-> "collection_local", u |-> U(<<Slot(Root, k, "X", Conc("X", <<>>))>>, [path |-> <<>>, frag |-> <<"#coll", k>>], k)],
     [shape |-> "refcycle", u |-> U(<<Slot(A1, k, "X", RefC(R(A1, B1, k, "Y", st))), Slot(B1, k, "Y", RefC(R(B1, A1, k, "X", st)))>>,
                                    R(Root, A1, k, "X", st), k)],
     [shape |-> "sametail",      \* two files with the same path tail, one below the root's directory and one beside it
@@ -209,6 +218,8 @@ QuickSlice(sh, st, e, pos) ==
    \/ (st \in {"plain", "abspath", "http"} /\ e = "file_abs")
    \/ (st \in AbsStyles /\ sh.shape \in {"direct", "child", "wholefile"} /\ e = "datapath" /\ pos = "op")
    \/ sh.shape = "otherhost_samepath"
+   \/ (sh.shape \in {"collection", "collection_local"} /\ st = "plain" /\ e \in {"file_abs", "data"})
+   \/ (sh.shape = "samepath_twohosts" /\ st = "plain" /\ e \in {"file_abs", "uri_remote", "datapath"})
    \/ (sh.shape = "deepfragment" /\ e \in {"file_abs", "file_rel"})
    \/ (sh.shape \in {"child", "chain3", "diamond"} /\ e = "file_abs" /\ pos = "op")
    \/ (sh.shape \in {"direct", "child", "pi_direct", "pi_wholefile", "pi_child"} /\ st = "plain" /\ pos = "op")
